@@ -16,6 +16,28 @@ thread_local! {
     static STATE: Cell<u64> = const { Cell::new(0) };
 }
 
+/// Progress counters for the thread pool (all monotone), used by the harness'
+/// logical deadlock detector: a scope is deadlocked when the queue is empty
+/// (`ENQUEUED == STARTED`) and every started job that has not finished is itself
+/// blocked waiting for a scope (`STARTED - FINISHED == WAIT_ENTER - WAIT_EXIT`
+/// counting worker waits only) while work remains.
+pub const ENQUEUED: usize = 0;
+pub const STARTED: usize = 1;
+pub const FINISHED: usize = 2;
+pub const WORKER_WAIT_ENTER: usize = 3;
+pub const WORKER_WAIT_EXIT: usize = 4;
+pub const BACKUP_SPAWNED: usize = 5;
+static COUNTERS: [AtomicU64; 6] = [const { AtomicU64::new(0) }; 6];
+
+#[inline]
+pub fn count(which: usize) {
+    COUNTERS[which].fetch_add(1, Ordering::SeqCst);
+}
+
+pub fn counter(which: usize) -> u64 {
+    COUNTERS[which].load(Ordering::SeqCst)
+}
+
 /// Arm the perturbation points with `seed` (0 disarms).
 pub fn arm(seed: u64) {
     SEED.store(seed, Ordering::SeqCst);
